@@ -493,3 +493,5 @@ def check(ctx, run):  # noqa: F811
         exhaustive_histories_rule(ctx, run, "C16.R7x", 4 if ncpu >= 8 else 3, jobs=max(1, min(16, ncpu)))
     else:
         exhaustive_histories_rule(ctx, run, "C16.R7x", 2)
+    from ..registry import hedger_histories_rule
+    hedger_histories_rule(ctx, run, "C16.R8")
